@@ -15,7 +15,8 @@ RULE = ('gen: 0..40 blocks x 1..12 primary variables (same count in every block;
         'byte-identical, lib write -> independent reader, independent Fortran-style writer (E / D / dropped-letter '
         'exponents, simulator-printed names) -> lib read; shipped: the 7 shipped files vs their .npy arrays, the '
         'independent reader and a write/read/write cycle. Non-trivial = >=1 block and (a negative or 3-digit-exponent '
-        'value, >4 variables, permeabilities, timing kept, or a quirk name); distinct = distinct case JSON.')
+        'value, >4 variables, permeabilities, timing kept, or a quirk name); distinct = distinct case JSON.'
+        ' Also: the written object may already have been written once elsewhere (with or without reset).')
 ASSUMPTIONS = ['every block of one file has the same number of primary variables (reader contract)',
                'TOUGHREACT flavour only when at least one block carries permeabilities (the format has no other marker)',
                'values that do not fit 20.13e are allowed to lose digits (C02), never to change otherwise']
@@ -122,6 +123,7 @@ def gen_case(draw):
                   'sumtim': draw(st.one_of(st.just(0.0), finite(0.0, 1e15), st.just(1.5e100)))}
     return {'k': 'gen', 'blocks': blocks, 'nv': nv, 'pass_nv': (nv > 4) or draw(st.booleans()),
             'check': check, 'toughreact': toughreact, 'timing': timing, 'reset': draw(st.booleans()), 'prewrite': draw(st.sampled_from([None, None, 'reset', 'keep'])),
+            'built_by': draw(st.sampled_from(['add', 'add', 'insert-front', 'delete-readd'])),
             'style': draw(st.sampled_from(['E', 'D', 'e'])),
             'reuse': draw(st.sampled_from([None, None, 'TOUGH2', 'TOUGHREACT']))}
 
@@ -189,9 +191,18 @@ def expected_after_lib_write(b):
 def build(case):
     import t2incons, numpy as np
     inc = t2incons.t2incon()
-    for b in case['blocks']:
+    how = case.get('built_by', 'add')
+    blocks = case['blocks'] if how == 'add' else case['blocks'][::-1]
+    for k, b in enumerate(blocks):
         perm = None if b['perm'] is None else np.array(b['perm'])
-        inc.add_incon(t2incons.t2blockincon(list(b['vars']), b['name'], b['por'], perm, b['nseq'], b['nadd']))
+        bi = t2incons.t2blockincon(list(b['vars']), b['name'], b['por'], perm, b['nseq'], b['nadd'])
+        if how == 'add': inc.add_incon(bi)
+        elif how == 'insert-front': inc.insert_incon(0, bi)          # same set, same final order, reached by insertion at the front
+        else:                                                       # 'delete-readd': appended in reverse, then each moved to its place
+            inc.add_incon(bi)
+    if how == 'delete-readd':
+        for b in case['blocks']:
+            bi = inc[b['name']]; inc.delete_incon(b['name']); inc.add_incon(bi)
     if case['toughreact']: inc.simulator = 'TOUGHREACT'
     if case['timing'] is not None: inc.timing = dict(case['timing'])
     return inc
